@@ -158,3 +158,56 @@ func OptionsRoundTrip(p *core.Prog, r *core.Report) {
 	r.Count("options_replayed", n)
 	r.Floor("options_replayed", 5)
 }
+
+// DEFAULTS-FIELDWISE — the package-level defaults (a struct-valued package variable initialised with a
+// composite literal) are a set of independent switches: outside package initialisation they may only be changed
+// one field at a time. A whole-value store (`defaultOpts = Opts{ContinueOnErrors: c}`) resets every other
+// default — here StrictPathParamUniqueness — so one call of a setter changes which rules the next validator
+// enforces, in both modes.
+func DefaultsFieldwise(p *core.Prog, r *core.Report) {
+	const rule = "DEFAULTS-FIELDWISE"
+	n := 0
+	for _, m := range p.Main.Members {
+		g, ok := m.(*ssa.Global)
+		if !ok {
+			continue
+		}
+		pt, ok := g.Type().(*types.Pointer)
+		if !ok {
+			continue
+		}
+		nt := core.NamedOf(pt.Elem())
+		if nt == nil || nt.Obj().Pkg() != p.Main.Pkg {
+			continue
+		}
+		if _, isPtr := pt.Elem().(*types.Pointer); isPtr {
+			continue
+		}
+		st, ok := nt.Underlying().(*types.Struct)
+		if !ok || st.NumFields() < 2 {
+			continue
+		}
+		// read by a spec-validation constructor: a copy is taken as the configuration of a validator
+		n++
+		var bad []string
+		for _, f := range p.Funcs {
+			if f.Name() == "init" || strings.HasPrefix(f.Name(), "init#") || f.Synthetic != "" {
+				continue
+			}
+			core.EachInstr(f, func(i ssa.Instruction) {
+				if s, ok := i.(*ssa.Store); ok && s.Addr == ssa.Value(g) {
+					bad = append(bad, fmt.Sprintf("%s at %s", core.FuncName(f), p.Pos(s.Pos())))
+				}
+			})
+		}
+		sort.Strings(bad)
+		key := "global:" + g.Name()
+		if len(bad) > 0 {
+			r.Bad(rule, key, p.Pos(g.Pos()), "the package-level defaults "+g.Name()+" are replaced as a whole outside initialisation ("+strings.Join(bad, "; ")+"): every field the assignment does not mention falls back to its zero value, not to its default, so a setter for one switch silently changes the others for every validator built afterwards")
+		} else {
+			r.OK(rule, key, p.Pos(g.Pos()), fmt.Sprintf("%s (%d fields) is only updated field by field outside package initialisation", g.Name(), st.NumFields()))
+		}
+	}
+	r.Count("struct_defaults", n)
+	r.Floor("struct_defaults", 1)
+}
